@@ -155,7 +155,8 @@ REG.add(Contract("_get_internal_module_prefix", module=M_GG, view="string", para
 REG.add(Contract("_get_all_internal_modules", module=M_GG, view="string", params=dict(modules="Bag[Str]", internal_module_prefix="Str"), returns="Set[Str]",
                  ensures=["forall(Str, lambda m: implies(m in result, (m in modules) and m.startswith(internal_module_prefix)))",
                           "forall(Str, lambda m: implies((m in modules) and dotted_below(internal_module_prefix, m), m in result))"],
-                 properties=["C04", "C10", "C14"], note="sandwich as for _is_internal_import: a dotted-boundary test satisfies it as well"))
+                 pure=True, properties=["C04", "C10", "C14"], note="sandwich as for _is_internal_import: a dotted-boundary test satisfies it as well; pure: a set comprehension, "
+                 "one function of its arguments (lets the composition contract of generate_graph name the set)"))
 REG.add(Contract("_remove_excluded_imports", module=M_GG, view="string",
                  params=dict(exclude_external_libraries="Bool", imports="Bag[Imp]", internal_module_prefix="Str", external_exclusions="Bag[Str]"), returns="Bag[Imp]",
                  ensures=["forall(Imp, lambda i: implies(i in result, i in imports))",
